@@ -14,6 +14,29 @@ ENTRY = ("            entry = b\"\".join([netstring(name.encode(\"utf-8\")),\n"
          "                             writecap,\n"
          "                             netstring(json.dumps(metadata).encode(\"utf-8\"))])\n")
 
+UN_RW_TEST = ("                if not (given_rw_uri.startswith(ALLEGED_READONLY_PREFIX)\n"
+              "                        or given_rw_uri.startswith(ALLEGED_IMMUTABLE_PREFIX)):")
+UN_RO_TEST = ("                if (given_ro_uri.startswith(ALLEGED_READONLY_PREFIX) or\n"
+              "                    given_ro_uri.startswith(ALLEGED_IMMUTABLE_PREFIX)):")
+FS_PREFIX_BLOCK = ("    if s.startswith(ALLEGED_IMMUTABLE_PREFIX):\n"
+                   "        can_be_mutable = can_be_writeable = False\n"
+                   "        s = s[len(ALLEGED_IMMUTABLE_PREFIX):]\n"
+                   "    elif s.startswith(ALLEGED_READONLY_PREFIX):\n"
+                   "        can_be_writeable = False\n"
+                   "        s = s[len(ALLEGED_READONLY_PREFIX):]\n")
+
+
+def fs_prefix_tuple(outer="(ALLEGED_IMMUTABLE_PREFIX, ALLEGED_READONLY_PREFIX)", inner="ALLEGED_IMMUTABLE_PREFIX"):
+    """from_string's prefix handling with one tuple test, told apart inside."""
+    return ("    if s.startswith(%s):\n"
+            "        can_be_writeable = False\n"
+            "        if s.startswith(%s):\n"
+            "            can_be_mutable = False\n"
+            "            s = s[len(ALLEGED_IMMUTABLE_PREFIX):]\n"
+            "        else:\n"
+            "            s = s[len(ALLEGED_READONLY_PREFIX):]\n") % (outer, inner)
+
+
 MUTANTS = [
     # ---- C19.1 entry fields
     M("writer-swaps-ro-rw", D, ENTRY,
@@ -578,6 +601,43 @@ MUTANTS = [
       "        self._readkey = None\n        self._encprivkey = None\n", None),
     M("vanish-get-initial-contents-no-call", MF,
       "        return contents(self)\n", "        return contents\n", "ANALYSIS-ERROR"),
+    # ---- `X.startswith((P, Q))` is `X.startswith(P) or X.startswith(Q)` (C19.6 / C19.11 / C19.12)
+    M("benign-unknown-rw-prefix-test-tuple", UN, UN_RW_TEST,
+      "                if not given_rw_uri.startswith((ALLEGED_READONLY_PREFIX, ALLEGED_IMMUTABLE_PREFIX)):", None),
+    M("benign-unknown-ro-prefix-test-tuple", UN, UN_RO_TEST,
+      "                if given_ro_uri.startswith((ALLEGED_IMMUTABLE_PREFIX, ALLEGED_READONLY_PREFIX)):", None),
+    M("benign-unknown-both-prefix-tests-tuple", UN, UN_RW_TEST,
+      "                if not given_rw_uri.startswith((ALLEGED_READONLY_PREFIX, ALLEGED_IMMUTABLE_PREFIX)):", None,
+      edits=[(UN, UN_RO_TEST, "                if given_ro_uri.startswith((ALLEGED_READONLY_PREFIX, ALLEGED_IMMUTABLE_PREFIX)):")]),
+    M("benign-unknown-prefix-tuple-hoisted", UN, UN_RW_TEST,
+      "                alleged = (ALLEGED_READONLY_PREFIX, ALLEGED_IMMUTABLE_PREFIX)\n"
+      "                if not given_rw_uri.startswith(alleged):", None),
+    M("benign-strip-imm-test-one-tuple", UN,
+      "    if ro_uri.startswith(ALLEGED_IMMUTABLE_PREFIX):\n        if not deep_immutable:",
+      "    if ro_uri.startswith((ALLEGED_IMMUTABLE_PREFIX,)):\n        if not deep_immutable:", None),
+    M("benign-strip-ro-test-tuple-with-excluded-member", UN,      # 'imm.' was excluded by the `if` before
+      "    elif ro_uri.startswith(ALLEGED_READONLY_PREFIX):\n        return",
+      "    elif ro_uri.startswith((ALLEGED_READONLY_PREFIX, ALLEGED_IMMUTABLE_PREFIX)):\n        return", None),
+    M("benign-from-string-prefix-tuple-then-told-apart", U, FS_PREFIX_BLOCK, fs_prefix_tuple(), None),
+    M("unknown-prefixed-single-cap-refused-tuple", UN, UN_RW_TEST,       # wrong member: 'imm.' forgotten
+      "                if not given_rw_uri.startswith((ALLEGED_READONLY_PREFIX,)):", "C19.11"),
+    M("unknown-rw-prefix-tuple-test-inverted", UN, UN_RW_TEST,
+      "                if given_rw_uri.startswith((ALLEGED_READONLY_PREFIX, ALLEGED_IMMUTABLE_PREFIX)):", "C19.11"),
+    M("double-ro-prefix-tuple", UN, UN_RO_TEST,                          # wrong member: 'ro.' forgotten -> 'ro.ro.'
+      "                if given_ro_uri.startswith((ALLEGED_IMMUTABLE_PREFIX,)):", "C19.6"),
+    M("strip-imm-test-tuple-widened", UN,                                # an 'ro.' cap loses len('imm.') bytes
+      "    if ro_uri.startswith(ALLEGED_IMMUTABLE_PREFIX):\n        if not deep_immutable:",
+      "    if ro_uri.startswith((ALLEGED_IMMUTABLE_PREFIX, ALLEGED_READONLY_PREFIX)):\n        if not deep_immutable:", "C19.6"),
+    M("unknown-both-slots-imm-test-tuple-wrong-member", UN,
+      "            elif given_ro_uri.startswith(ALLEGED_IMMUTABLE_PREFIX):\n                # Strange corner case",
+      "            elif given_ro_uri.startswith((ALLEGED_READONLY_PREFIX,)):\n                # Strange corner case", "C19.11"),
+    M("from-string-prefix-tuple-told-apart-by-wrong-member", U, FS_PREFIX_BLOCK,
+      fs_prefix_tuple(inner="ALLEGED_READONLY_PREFIX"), "C19.12"),
+    M("from-string-prefix-tuple-misses-imm", U, FS_PREFIX_BLOCK, fs_prefix_tuple(outer="(ALLEGED_READONLY_PREFIX,)"), "C19.12"),
+    M("from-string-prefix-tuple-one-cut-for-both", U, FS_PREFIX_BLOCK,
+      "    if s.startswith((ALLEGED_IMMUTABLE_PREFIX, ALLEGED_READONLY_PREFIX)):\n"
+      "        can_be_mutable = can_be_writeable = False\n"
+      "        s = s[len(ALLEGED_READONLY_PREFIX):]\n", "C19.12"),
     # ---- vanished anchor
     M("vanish-unpack", D,
       "    def _unpack_contents(self, data):", "    def _unpack_contentsX(self, data):", "ANALYSIS-ERROR"),
